@@ -72,6 +72,15 @@ RESTORABLE = ('sc', 'im')
 # viewer family
 # ---------------------------------------------------------------------------------------------
 
+def _none_props(state):
+    """names of the callback properties of a viewer state that are unset (None / empty)"""
+    out = []
+    for name, value in sorted(state.as_dict().items()):
+        if value is None or (hasattr(value, '__len__') and not isinstance(value, str) and len(value) == 0):
+            out.append(name)
+    return tuple(out)
+
+
 class ViewWorld:
     """The real objects of one case + the bookkeeping that gives them stable ids / names."""
 
@@ -98,6 +107,7 @@ class ViewWorld:
             self.dc = DataCollection()
             self.app = Application(self.dc)
             self.viewer = self.app.new_data_viewer(VIEWERS[cls])
+            self.viewer._c18_fresh = _none_props(self.viewer.state)
             ViewWorld._uses[cls] = 0
         self.restored = False
         self.keep.extend(self.data)
@@ -120,8 +130,11 @@ class ViewWorld:
                 dc.remove(d)
             for d in self.data:
                 v.remove_data(d)
+            # the viewer state must be back to what a fresh viewer has (same attributes unset), so
+            # that a case never depends on its predecessors and every replay is self-contained
             clean = (len(v.layers) == 0 and len(v.state.layers) == 0 and len(dc.data) == 0 and
-                     len(dc.subset_groups) == 0 and not dc.hub._queue and not dc.hub._paused)
+                     len(dc.subset_groups) == 0 and not dc.hub._queue and not dc.hub._paused and
+                     _none_props(v.state) == getattr(v, '_c18_fresh', None))
             if clean:
                 ViewWorld._pool[self.cls] = (dc, self.app, v)
         except Exception:
@@ -843,8 +856,8 @@ class Combo(Family):
         # every sequence of L ops over the core alphabet after `ha 0`; every sequence of L-1 ops over
         # the full alphabet after each of three prefixes
         if tier == "quick":
-            blocks = [([['ha', 0]], COMBO_CORE, 3), ([['ha', 0]], COMBO_ALPHA, 2),
-                      ([['ha', 0], ['ha', 1]], COMBO_ALPHA, 2), ([], COMBO_ALPHA, 2)]
+            blocks = [([['ha', 0]], COMBO_ALPHA, 2), ([['ha', 0], ['ha', 1]], COMBO_ALPHA, 2), ([], COMBO_ALPHA, 2),
+                      ([['ha', 0]], COMBO_CORE, 3)]
         else:
             blocks = [([['ha', 0]], COMBO_ALPHA, 3), ([['ha', 0], ['ha', 1]], COMBO_ALPHA, 3), ([], COMBO_ALPHA, 3),
                       ([['ha', 0]], COMBO_SMALL, 4), ([['ha', 0]], COMBO_CORE, 3)]
@@ -995,15 +1008,20 @@ class DCombo(Family):
         L = 3 if tier == "quick" else 4
         k = 0
         idxs = [0, 1, -1, 5]
-        for auto in (True, False):
+        # a dataset leaves the collection while a picker lists / selects it
+        for idx in idxs:
+            yield [2, False, idx, [0, 1], [['ha', 0], ['ha', 1], ['sel', 1], ['dr', 1]]]
+            yield [2, False, idx, [0], [['ha', 0], ['do'], ['dr', 0], ['dc']]]
+            yield [2, True, idx, [0, 1], [['sel', 1], ['do'], ['dr', 1], ['da', 1], ['dc']]]
+        # small blocks first: a budget cut-off under machine load then only drops the tail of the last one
+        blocks = [(False, [], L), (False, [0, 1], L), (True, [], L), (True, [0, 1], L + 1)]
+        for auto, in_dc, n in blocks:
             alpha = [o for o in DCOMBO_ALPHA if auto is False or o[0] not in ('ha', 'hr', 'hm')]
-            for in_dc in ([], [0, 1]):
-                n = L + 1 if (auto and in_dc) else L
-                for seq in itertools.product(alpha, repeat=n):
-                    ops = [list(o) for o in seq]
-                    nd = 1 + max([1 if in_dc else 0] + [max(o[1:]) for o in ops if o[0] in ('da', 'dr', 'ha', 'hr', 'hm', 'rl')])
-                    yield [nd, auto, idxs[k % 4], in_dc, ops]
-                    k += 1
+            for seq in itertools.product(alpha, repeat=n):
+                ops = [list(o) for o in seq]
+                nd = 1 + max([1 if in_dc else 0] + [max(o[1:]) for o in ops if o[0] in ('da', 'dr', 'ha', 'hr', 'hm', 'rl')])
+                yield [nd, auto, idxs[k % 4], in_dc, ops]
+                k += 1
 
     def run_impl(self, case):
         return _run_dcombo(case)
